@@ -69,6 +69,68 @@ func (e *Exec) libModel(st *State, callee *ssa.Function, cc *ssa.CallCommon, arg
 		e.assume(st, fmt.Sprintf("(not (= %s 0))", r.S))
 		set(r)
 		return true, true, nil
+	case "github.com/pierrec/lz4/v4.CompressBlockBound":
+		// assumed: the bound is at least the input size (n + n/255 + 16)
+		used()
+		r := e.freshVal(st, "lz4bound", resT)
+		e.assume(st, and(e.le(args[0].S, r.S), e.le(r.S, e.sc.idxLit(maxLen))))
+		set(r)
+		return true, true, nil
+	case "(*github.com/pierrec/lz4/v4.Compressor).CompressBlock", "github.com/pierrec/lz4/v4.UncompressBlock", "github.com/pierrec/lz4/v4.CompressBlock":
+		// assumed: writes a prefix of dst and returns its length n, 0 <= n <= len(dst); n == 0 on error
+		used()
+		dstv := args[len(args)-1]
+		k, srt := e.elemKey(tByte)
+		m := e.memGet(st, k, srt)
+		na := e.sc.fresh("lz4arr", fmt.Sprintf("(Array %s %s)", e.sc.idx(), e.sc.byteSort()))
+		lo := e.sc.define("lzlo", e.sc.idx(), "(s-off "+dstv.S+")")
+		hi := e.sc.define("lzhi", e.sc.idx(), e.add("(s-off "+dstv.S+")", "(s-len "+dstv.S+")"))
+		e.assume(st, fmt.Sprintf("(forall ((k %s)) (! (=> (or %s %s) (= (select %s k) (select (select %s (s-base %s)) k))) :pattern ((select %s k))))",
+			e.sc.idx(), e.lt("k", lo), e.le(hi, "k"), na, m, dstv.S, na))
+		e.memSet(st, k, srt, fmt.Sprintf("(store %s (s-base %s) %s)", m, dstv.S, na))
+		n := e.sc.fresh("lz4n", e.sc.idx())
+		errv := e.freshVal(st, "lz4err", types.Universe.Lookup("error").Type())
+		e.assume(st, and(e.le(e.sc.idxLit(0), n), e.le(n, "(s-len "+dstv.S+")"), imp(fmt.Sprintf("(not (= (i-tag %s) 0))", errv.S), eq(n, e.sc.idxLit(0)))))
+		set(Val{T: resT, Tup: []Val{{T: tInt, S: n}, errv}})
+		return true, true, nil
+	case "bytes.NewBuffer":
+		// model: a Buffer is a heap object whose field buf holds the unread bytes (off == 0)
+		used()
+		bt := resT.Underlying().(*types.Pointer).Elem()
+		ref := e.allocRef(st)
+		e.bufSet(st, bt, ref, args[0].S)
+		set(Val{T: resT, S: ref})
+		return true, true, nil
+	case "(*bytes.Buffer).Write", "(*bytes.Buffer).WriteString", "(*bytes.Buffer).WriteByte":
+		used()
+		bt := cc.Args[0].Type().Underlying().(*types.Pointer).Elem()
+		e.checkNonNil(st, args[0].S, "bytes.Buffer", pos)
+		cur := Val{T: types.NewSlice(tByte), S: e.bufGet(st, bt, args[0].S)}
+		var res string
+		switch name {
+		case "(*bytes.Buffer).WriteByte":
+			res = e.appendVals(st, tByte, cur, Val{}, false, []string{args[1].S})
+			set(Val{T: resT, S: "(mk-iface 0 0)"})
+		case "(*bytes.Buffer).WriteString":
+			res = e.appendVals(st, tByte, cur, args[1], true, nil)
+			set(Val{T: resT, Tup: []Val{{T: tInt, S: "(str-len " + args[1].S + ")"}, {T: types.Universe.Lookup("error").Type(), S: "(mk-iface 0 0)"}}})
+		default:
+			res = e.appendVals(st, tByte, cur, args[1], false, nil)
+			set(Val{T: resT, Tup: []Val{{T: tInt, S: "(s-len " + args[1].S + ")"}, {T: types.Universe.Lookup("error").Type(), S: "(mk-iface 0 0)"}}})
+		}
+		e.bufSet(st, bt, args[0].S, res)
+		return true, true, nil
+	case "(*bytes.Buffer).Bytes":
+		used()
+		bt := cc.Args[0].Type().Underlying().(*types.Pointer).Elem()
+		e.checkNonNil(st, args[0].S, "bytes.Buffer", pos)
+		set(Val{T: resT, S: e.bufGet(st, bt, args[0].S)})
+		return true, true, nil
+	case "(*bytes.Buffer).Len":
+		used()
+		bt := cc.Args[0].Type().Underlying().(*types.Pointer).Elem()
+		set(Val{T: resT, S: "(s-len " + e.bufGet(st, bt, args[0].S) + ")"})
+		return true, true, nil
 	case "fmt.Errorf", "errors.New":
 		used()
 		set(e.newError(st, resT))
@@ -333,4 +395,28 @@ func constantString(c *ssa.Const) string {
 		return ""
 	}
 	return constant.StringVal(c.Value)
+}
+
+// bytes.Buffer model: the struct field `buf` holds the contents.
+func (e *Exec) bufField(bt types.Type) int {
+	u := bt.Underlying().(*types.Struct)
+	for i := 0; i < u.NumFields(); i++ {
+		if u.Field(i).Name() == "buf" {
+			return i
+		}
+	}
+	return 0
+}
+
+func (e *Exec) bufGet(st *State, bt types.Type, ref string) string {
+	k, srt := e.heapKey(bt, e.bufField(bt))
+	v := e.sc.define("bbuf", "Slice", fmt.Sprintf("(select %s %s)", e.memGet(st, k, srt), ref))
+	e.assume(st, e.wfB(st, Val{T: types.NewSlice(tByte), S: v}, e.refBound(st, k)))
+	return v
+}
+
+func (e *Exec) bufSet(st *State, bt types.Type, ref, val string) {
+	k, srt := e.heapKey(bt, e.bufField(bt))
+	m := e.memGet(st, k, srt)
+	e.memSet(st, k, srt, fmt.Sprintf("(store %s %s %s)", m, ref, val))
 }
